@@ -1,4 +1,5 @@
 import RootSim.Model.Rand
+import RootSim.Model.RandGamma
 import Driver.Util
 namespace Driver
 open RootSim.Rand RootSim.Float
@@ -39,6 +40,51 @@ def gammaX (v : RandVariant) (ia : Nat) (g : Rng) : Except UB (Nat × Rng) := do
   let (x, g') ← gammaLoop v.bits ia FVal.one g
   pure (encodeDouble x, g')
 
+/-- class of a `double`: `fin`, `+inf`, `-inf`, `nan` -/
+def fclass : FVal → String
+  | .fin _ _ => "fin"
+  | .inf false => "+inf"
+  | .inf true => "-inf"
+  | .nan => "nan"
+
+/-- sign of a `double`: `-`, `0`, `+` (`?` for NaN) -/
+def fsign : FVal → String
+  | .fin m _ => if m < 0 then "-" else if m = 0 then "0" else "+"
+  | .inf n => if n then "-" else "+"
+  | .nan => "?"
+
+/-- inner-loop fuel of `gammabig1` (the harness gives up after the same number of passes) -/
+def gammaBig1Fuel : Nat := 64
+
+/-- `gammabig1 <fixed> <ia> <state>`: ONE pass of the outer loop of the rejection branch of
+`Gamma`, the part of the operand chain that does not depend on libm (`gammaInner`, `gammaY`,
+`gammaAm`, `gammaSqArg`: the definitions the theorems of `Props/C18Gamma.lean` are about):
+`<passes> <v1 bits> <v2 bits> <y bits> <v1 == 0> <sign v2> <class y> <am bits> <2am+1 bits> <state>` -/
+def gammaBig1 (v : RandVariant) (fixed : Bool) (ia : Nat) (g : Rng) : String :=
+  showE18 (fun (p : (Option (FVal × FVal) × Nat) × Rng) =>
+    match p.1.1 with
+    | none => "stuck " ++ toString p.1.2 ++ " " ++ showRng p.2
+    | some (v1, v2) =>
+      let y := gammaY v1 v2
+      let am := gammaAm ia
+      " ".intercalate [toString p.1.2, toHex (encodeDouble v1), toHex (encodeDouble v2), toHex (encodeDouble y),
+        b2s v1.isZero, fsign v2, fclass y, toHex (encodeDouble am), toHex (encodeDouble (gammaSqArg am)),
+        showRng p.2])
+    (gammaInner v.bits fixed gammaBig1Fuel g)
+
+/-- `fop <op> <a bits> <b bits>`: one binary64 operation of `Model/Float.lean` on arbitrary
+operands (`-0.0` is read as `0.0`, every NaN is printed as `7ff8000000000000`) -/
+def fopcmd (op : String) (a b : FVal) : String :=
+  match op with
+  | "add" => toHex (encodeDouble (FVal.add a b))
+  | "sub" => toHex (encodeDouble (FVal.sub a b))
+  | "mul" => toHex (encodeDouble (FVal.mul a b))
+  | "div" => toHex (encodeDouble (FVal.div a b))
+  | "gt" => b2s (FVal.gt a b)
+  | "lt" => b2s (FVal.lt a b)
+  | "eq0" => b2s a.isZero
+  | _ => "bad-op"
+
 def randcmd (v : RandVariant) (args : List String) : String :=
   match args with
   | "next" :: rest =>
@@ -78,6 +124,11 @@ def randcmd (v : RandVariant) (args : List String) : String :=
     match parseRng rest with
     | some (g, _) => showE18 (fun p => toHex p.1 ++ " " ++ showRng p.2) (gammaX v (nat! ia) g)
     | none => "bad-op"
+  | "gammabig1" :: fx :: ia :: rest =>
+    match parseRng rest with
+    | some (g, _) => gammaBig1 v (fx == "1") (nat! ia) g
+    | none => "bad-op"
+  | ["fop", op, a, b] => fopcmd op (decodeDouble (parseHexNat a)) (decodeDouble (parseHexNat b))
   | "adv" :: k :: rest =>
     match parseRng rest with
     | some (g, _) => showRng (advance (nat! k) g)
